@@ -53,7 +53,9 @@ func C12(r *h.Run) {
 	r.Sum.Rule = "11 HTTP methods x {HTTP/1.0, 1.1, 2} x Content-Types (every advertised one, every single-character deletion/insertion/case change of it, parameters, blanks, random) x codec sets (default, +custom, custom named like a protocol suffix, custom names with '+', ',' and ' ') x 4 RPC kinds, counters in user code and interceptors; URL shapes for extractProtoPath and the Spec seen on both sides. distinct = distinct (codec set, kind, version, method, content-type)"
 	rng := r.Rng.Fork("c12")
 	type wb = wrapperspb.BytesValue
-	codecSets := [][]string{{}, {"toy"}, {"toy", "grpc"}, {"grpc-web", "connect+x"}, {"a,b", "c d"}, {"json+x", "proto "}}
+	codecSets := [][]string{{}, {"toy"}, {"toy", "grpc"}, {"grpc-web", "connect+x"}, {"a,b", "c d"}, {"json+x", "proto "},
+		// names that begin like a protocol's media type: unary Connect serves application/<name>
+		{"grpcx", "grpc-webx", "connectx"}}
 	kinds := []string{"unary", "client", "server", "bidi"}
 	methods := []string{"POST", "GET", "PUT", "DELETE", "HEAD", "OPTIONS", "PATCH", "CONNECT", "TRACE", "post", "POSTX"}
 	versions := [][2]int{{1, 0}, {1, 1}, {2, 0}}
